@@ -21,6 +21,9 @@ CORPUS = [
     ([('trs', '154n97wxx')], ('trs', '154n97wXX')),
     ([('tract', 'NE/4', '154n97wxx', '')], ('parse', 'T154N-R97W NE/4 of the land', '')),
     ([('trs', '154N97W14'), ('todict', '154n97w14'), ('mutate',)], ('trs', '154N97W14')),
+    ([('trs', '154n97w14'), ('todict', '154n97w14'), ('mutate',)], ('trs', '154n97w14')),
+    ([('todict', '154n97w14'), ('mutate',)], ('parse', 'T154N-R97W Sec 14: NE/4, Sec 15: W/2', '')),
+    ([('parse', 'T154N-R97W Sec 14: NE/4, Sec 15: W/2', ''), ('mutate',)], ('tract', 'NE/4', '154n97w14', 'parse_qq')),
     ([('parse', 'T154-R97 Sec 14: NE/4', ''), ('master', 's', 'e')], ('parse', 'T154-R97 Sec 14: NE/4', '')),
     ([('find', 'T154-R97 Sec 14: NE/4'), ('master', 's', 'e')], ('find', 'T154-R97 Sec 14: NE/4')),
     ([('master', 'n', 'w')], ('late', 'T154-R97 Sec 14: NE/4', '', 's', 'e')),
@@ -66,6 +69,8 @@ def apply_op(pytrs, op, keep):
         if k == 'todict':
             d = pytrs.trs_to_dict(op[1])
             keep.append(d)
+            keep.append(pytrs.trs_to_dict(pytrs.TRS(op[1])))      # the same conversion handed a TRS object instead of a string
+            keep.append(pytrs.TRS.trs_to_dict(pytrs.TRS(op[1])))
             return [d[f] for f in FIELDS]
         if k == 'construct':
             return pytrs.TRS.from_twprgesec(op[1], op[2], op[3]).trs
